@@ -4,12 +4,12 @@ import vcheck
 from checks import _schema_common as sc
 
 PID = "C16"
-MODULES = ["BeffVerif.Props.C16", "BeffVerif.Props.C16Order"]
+MODULES = ["BeffVerif.Props.C16", "BeffVerif.Props.C16Order", "BeffVerif.Props.C16Names"]
 AUDIT = "BeffVerif/Audit/C16.lean"
 TAGS = ("c16.",)
 MODE = "schema-ctx"
 HYP = {"NoThrowingCall": "D16c"}
-OPEN = ["export_order_independent is a theorem for the DEFINITIONS (Props/C16Order: any two call histories — order, repetition, exceptions, fuel — agree on the definition of every name both define; hypothesis Functional = a name has one schema source, which only a synthetic variant name can violate); that the SET of defined names is the same for every order, and that every $ref resolves in the final export, are decided on the real contexts by the oracle, not proved",
+OPEN = ["export_order_independent is a theorem: the DEFINITIONS (Props/C16Order: any two call histories — order, repetition, exceptions, fuel — agree on the definition of every name both define) and the SET OF NAMES (Props/C16Names: histories over the same set of parsers in which every call returns define exactly the names mentioned by a reachable runtype; no mark is left). Hypothesis Functional / Functional' = a name has one schema source, which only a synthetic variant name can violate (D16b). Not proved: that every `$ref` STRING inside the returned JSON is the reference of a mentioned name (the theorem speaks of mentions, the oracle of the JSON), and the set of names for histories with exceptions (D16c lives there)",
         "D16b: synthetic variant names are `Discriminated<Key><Value><|hash32|>` — two different unions with colliding 32-bit hashes share names (recorded input); D16c: after a throwing call, definitions completed inside the failed cycle keep $refs to the failed type"]
 RULE = ("random sets of 1–4 parsers sharing named / recursive types, random call sequences with repetition (1–6 calls), four refPathTemplate / container-key settings, "
         "optional namedTypeSchemaOverrides: after EVERY call the returned schema and exportDefinitions() are compared verbatim with the Lean context state machine; oracle on the "
